@@ -107,15 +107,18 @@ def tie(tag, module_path, funcs, tmpl_name, theorems, imports=""):
     return res
 
 
-COORD_FUNCS = ["check_region", "get_region", "pad_region", "spacing_to_size", "line_coordinates", "shape_to_spacing"]
+COORD_FUNCS = ["check_region", "get_region", "pad_region", "spacing_to_size", "line_coordinates", "shape_to_spacing",
+               "grid_coordinates"]
 COORD_THEOREMS = ["src_check_region_eq", "src_get_region_eq", "src_pad_region_scalar_eq", "src_pad_region_pair_eq",
-                  "src_spacing_to_size_eq", "src_line_coordinates_eq", "src_shape_to_spacing_eq"]
+                  "src_spacing_to_size_eq", "src_line_coordinates_eq", "src_shape_to_spacing_eq",
+                  "src_grid_coordinates_eq"]
+COORD_IMPORTS = "From Verde Require Import Proofs.PyLiteBridge."
 
 
 def coord_obligations():
     """returns list of (name, ok, detail)"""
     return tie("CoordSrc", os.path.join("verde", "coordinates.py"), COORD_FUNCS, "pylite_coordinates.v.tmpl",
-               COORD_THEOREMS)
+               COORD_THEOREMS, COORD_IMPORTS)
 
 
 LON_FUNCS = ["_check_geographic_region", "_check_geographic_coordinates", "longitude_continuity"]
